@@ -74,6 +74,8 @@ type ApproveSpec struct {
 	Approvers []string `json:"approvers,omitempty"`
 	Dismissed []string `json:"dismissed,omitempty"`
 	Remove    bool     `json:"remove,omitempty"`
+	Lift      bool     `json:"lift,omitempty"`    // adversary: signatures lifted from the envelope of another change (StoreFrom/StoreTo)
+	Misfile   bool     `json:"misfile,omitempty"` // adversary: a validly signed statement for this change stored under the path of (StoreRef, StoreFrom, StoreTo)
 }
 
 // EntryTruth is what the simulator knows about one commit in the RSL because
